@@ -1,5 +1,117 @@
-import SmtpV.Model.Server
+import SmtpV.Model.Wire
 import SmtpV.Spec.Monitors
-/-! # C19 (theorems follow) -/
+/-!
+# C19 — hostile input is bounded (line-length limiter)
+
+Proved here: the counting rule of `lineLimitReader.Read` never trips on input whose lines are within
+the maximum — for every way the network cuts the stream into reads — and does trip on a line that is
+more than one octet longer.  The remaining clauses (no recovered panic, error threshold, nothing of an
+over-long line reaches the backend) are judged by `Spec.Mon.check19` on hostile conversations and tied
+by the correspondence with the server model; their theorems are work in progress.
+-/
 namespace SmtpV.Props.C19
+open SmtpV SmtpV.Wire
+
+theorem countLoop_append (limit cur : Nat) (a b : Bytes) :
+    countLoop limit cur (a ++ b) =
+      (if (countLoop limit cur a).2 then countLoop limit cur a else countLoop limit (countLoop limit cur a).1 b) := by
+  induction a generalizing cur with
+  | nil => simp [countLoop]
+  | cons x a ih =>
+    simp only [List.cons_append, countLoop]
+    by_cases h : bump cur x > limit
+    · simp [h]
+    · simp only [h, if_false]; exact ih _
+
+theorem bump_nonLF (cur : Nat) (b : Byte) (h : b ≠ LF) : bump cur b = cur + 1 := by
+  have : (b == LF) = false := by simpa using h
+  simp [bump, this]
+
+/-- the counter over the content of a line (no LF inside): it just grows -/
+theorem countLoop_content (limit cur : Nat) (content : Bytes) (hno : ∀ b ∈ content, b ≠ LF)
+    (h : cur + content.length ≤ limit) : countLoop limit cur content = (cur + content.length, false) := by
+  induction content generalizing cur with
+  | nil => simp [countLoop]
+  | cons b t ih =>
+    simp only [countLoop, bump_nonLF cur b (hno b (by simp))]
+    have : ¬ cur + 1 > limit := by simp at h; omega
+    simp only [this, if_false]
+    rw [ih (cur + 1) (fun x hx => hno x (by simp [hx])) (by simp at h ⊢; omega)]
+    simp; omega
+
+/-- one whole line within the maximum, from any counter value a line start can have -/
+theorem countLoop_line (limit cur : Nat) (content : Bytes) (hno : ∀ b ∈ content, b ≠ LF) (hc : cur ≤ 1)
+    (hlen : content.length + 1 ≤ limit) : countLoop limit cur (content ++ [LF]) = (1, false) := by
+  rw [countLoop_append, countLoop_content limit cur content hno (by omega)]
+  simp [countLoop, bump]
+  omega
+
+/-- a whole stream of lines within the maximum -/
+theorem countLoop_lines (limit : Nat) (lines : List Bytes) (cur : Nat) (hc : cur ≤ 1)
+    (h : ∀ l ∈ lines, (∀ b ∈ l, b ≠ LF) ∧ l.length + 1 ≤ limit) :
+    (countLoop limit cur (lines.flatMap (fun l => l ++ [LF]))).2 = false := by
+  induction lines generalizing cur with
+  | nil => simp [countLoop]
+  | cons l t ih =>
+    obtain ⟨hno, hlen⟩ := h l (by simp)
+    simp only [List.flatMap_cons]
+    rw [countLoop_append, countLoop_line limit cur l hno hc hlen]
+    simp only [Bool.false_eq_true, if_false]
+    exact ih 1 (Nat.le_refl _) (fun x hx => h x (by simp [hx]))
+
+/-- the limiter's state over successive raw reads (`chunks`): final counter and whether it tripped -/
+def feed (limit : Nat) : Nat → List Bytes → Nat × Bool
+  | cur, [] => (cur, false)
+  | cur, c :: t =>
+    match countLoop limit cur c with
+    | (c', true) => (c', true)
+    | (c', false) => feed limit c' t
+
+theorem feed_flatten (limit cur : Nat) (chunks : List Bytes) :
+    (feed limit cur chunks).2 = (countLoop limit cur chunks.flatten).2 := by
+  induction chunks generalizing cur with
+  | nil => simp [feed, countLoop]
+  | cons c t ih =>
+    simp only [feed, List.flatten_cons]
+    rw [countLoop_append]
+    cases hc : countLoop limit cur c with
+    | mk c' trip =>
+      cases trip
+      · simp [ih]
+      · simp
+
+/-- **C19_short_lines_ok.**  Input all of whose lines (LF included) are within the maximum is never
+    refused for its length, however the network segments it. -/
+theorem C19_short_lines_ok (limit : Nat) (lines : List Bytes) (chunks : List Bytes)
+    (hseg : chunks.flatten = lines.flatMap (fun l => l ++ [LF]))
+    (h : ∀ l ∈ lines, (∀ b ∈ l, b ≠ LF) ∧ l.length + 1 ≤ limit) :
+    (feed limit 0 chunks).2 = false := by
+  rw [feed_flatten, hseg]
+  exact countLoop_lines limit lines 0 (by omega) h
+
+/-- **C19_long_line_trips.**  A line whose content (no LF inside) takes the counter beyond the maximum
+    trips the limiter before the end of the line is seen — so a line more than one octet longer than the
+    maximum (CRLF included) is refused wherever it starts (the counter is at most 1 at a line start). -/
+theorem C19_long_line_trips (limit : Nat) (content rest : Bytes) (cur : Nat) (hno : ∀ b ∈ content, b ≠ LF)
+    (hc : cur ≤ limit) (hlen : cur + content.length > limit) : (countLoop limit cur (content ++ rest)).2 = true := by
+  induction content generalizing cur with
+  | nil => simp at hlen; omega
+  | cons b t ih =>
+    simp only [List.cons_append, countLoop, bump_nonLF cur b (hno b (by simp))]
+    by_cases h : cur + 1 > limit
+    · simp [h]
+    · simp only [h, if_false]
+      exact ih (cur + 1) (fun x hx => hno x (by simp [hx])) (by omega) (by simp at hlen ⊢; omega)
+
+/-- in numbers: a line of `n ≥ limit + 2` octets (CRLF included) has `n - 1 ≥ limit + 1` octets before its
+    LF, which is more than the limiter tolerates from any line start -/
+theorem C19_long_line_refused (limit : Nat) (line rest : Bytes) (cur : Nat) (hcur : cur ≤ 1) (hl : 1 ≤ limit)
+    (hno : ∀ b ∈ line, b ≠ LF) (hlen : limit + 1 ≤ line.length) :
+    (countLoop limit cur (line ++ [LF] ++ rest)).2 = true := by
+  rw [List.append_assoc]
+  exact C19_long_line_trips limit line _ cur hno (by omega) (by omega)
+
+example : (feed 8 0 ["NOO".b, "P\nRS".b, "ET\n".b]).2 = false := by decide +kernel
+example : (feed 8 0 ["NOOPNOOP".b, "X\n".b]).2 = true := by decide +kernel
+
 end SmtpV.Props.C19
